@@ -171,7 +171,7 @@ func (ch *Chain) BuildClaim(e M) ClaimBytes {
 	c := ch.C
 	tree := absx.Map(e["tree"])
 	tid := absx.Str(tree["id"])
-	if _, ok := c.Trees[tid]; !ok {
+	{
 		var ls []M
 		for _, l := range absx.List(tree["leaves"]) {
 			ls = append(ls, absx.Map(l))
@@ -227,6 +227,9 @@ func (ch *Chain) BuildClaim(e M) ClaimBytes {
 			ok = false
 		}
 	}
+	if ok && !c.Amount(absx.Int(w["amt"])).IsUint64() {
+		ok = false // the leaf format commits to a 64-bit amount: a larger claimed amount has no leaf at all
+	}
 	if ok {
 		ok = bytes.Equal(fmtx.RootFromProof(c.LeafHash(wl), proofs), sroot)
 	}
@@ -244,6 +247,7 @@ func (ch *Chain) Exec(e M) Outcome {
 	c := ch.C
 	f := ch.F
 	ty := absx.Str(e["type"])
+	f.LastRaw = ""
 	signer := ""
 	if s, ok := e["signer"]; ok {
 		signer = c.Addr(absx.Str(s))
@@ -261,6 +265,14 @@ func (ch *Chain) Exec(e M) Outcome {
 		}
 		return Outcome{OK: true, Resp: M{"bridge": int64(r.Resp.(*ophosttypes.MsgCreateBridgeResponse).BridgeId)}}
 	case "ProposeOutput":
+		if tr, ok := e["tree"]; ok { // the proposer's tree travels with the event when it is not one of the run's fixed tables
+			tm := absx.Map(tr)
+			var ls []M
+			for _, l := range absx.List(tm["leaves"]) {
+				ls = append(ls, absx.Map(l))
+			}
+			c.Trees[absx.Str(tm["id"])] = ls
+		}
 		root := c.Root(absx.Map(e["root"]))
 		if absx.Str(e["bad"]) == "rootlen" {
 			root = root[:31]
